@@ -353,6 +353,21 @@ pub fn offset_for(t: &mut Tape, canvas: u16, size: u16, extreme: bool) -> i16 {
 }
 
 pub fn build_sprite(t: &mut Tape, c: &GenCfg) -> Sprite {
+    // about one sprite in fifty is an order of magnitude larger in every dimension (dozens of layers and
+    // frames, canvases and cels of a hundred pixels, large tiles): most cases stay small and fast
+    let scaled;
+    let c = if t.chance(1, 50) {
+        let mut big = c.clone();
+        big.max_layers = (c.max_layers * 4).min(28);
+        big.max_frames = (c.max_frames * 5).min(24);
+        big.canvas_typ = (c.canvas_typ * 6).min(140);
+        big.max_cel = (c.max_cel * 6).min(100);
+        big.max_tile = (c.max_tile * 5).min(40);
+        scaled = big;
+        &scaled
+    } else {
+        c
+    };
     let fmt = t.pick(&c.fmts);
     let dim = |t: &mut Tape| -> u16 {
         if c.big_canvas && t.chance(1, 6) {
